@@ -59,11 +59,22 @@
 //! Sensitivity probes (env-gated multi-mutation patch probes/probes.diff, driver probes/run-probes.sh, log
 //! probes/probes.log; `tools/mutrun probes/probes.diff -- bash probes/run-probes.sh`; quick tier, seed 0):
 //!  p1  ForeignScalarUDF passes `number_rows.min(1)`            → VIOLATION "uuid(): result length differs: native 5 foreign 1"
+//!      (a later run of the same probe hit a native function that panics on the inconsistent row count inside the extern "C"
+//!      entry first: process abort, exit 134 — a crash instead of a verdict; the case is saved by the abort hook, see below)
 //!  p2  provider returns the return field with nullable=true     → VIOLATION "coalesce(..): return_field_from_args differs .. nullable=false / true"
 //!  p11 FFI_Volatility maps Stable to Immutable                  → VIOLATION "current_date(): volatility: native Stable foreign Immutable"
 //!  p12 ForeignScalarUDF sends default ConfigOptions            → first run MISSED (only to_unixtime reads the options at
 //!      invocation); generator strengthened with the harness UDF `vf_config_echo` (echoes time zone, batch size, number_rows);
-//!      re-probe verdict in probes.log.
+//!      re-probe → VIOLATION "vf_config_echo(): row 0 differs: native \"Some(\"+01:00\")|8192|11\" foreign \"None|8192|11\"".
+//!
+//! Second GENUINE FINDING `c-schema-export-panics-on-nul` (open, no repair: arrow-schema dependency): a literal
+//! argument with a NUL byte that becomes part of the return type (`from_unixtime(x, 'ab\0cd')`) makes
+//! `FFI_ArrowSchema::try_from` panic (`CString::new(..).unwrap()`) inside the extern "C" return-field wrapper:
+//! the process aborts where the native function returns a field. Found as an abort of the thorough tier; the
+//! export is now probed natively (under `guard`) and such cases do not cross the FFI.
+//! Abort forensics: a panic inside an extern "C" entry point cannot be caught. `crate::set_current_case` +
+//! `crate::foreign` arm a chained panic hook that writes the case being evaluated to
+//! /verif/replays/<sub>-foreign-abort-<hash>.json before the process dies, so an abort is replayable.
 //! With the three proposed repairs applied (probes/fixes-all.diff) `./check C45 quick` passes with known_excluded = 0.
 use crate::fx::*;
 use crate::vals::*;
@@ -353,6 +364,7 @@ fn run_case(case: &Case) -> CaseResult {
         return CaseResult::discard("malformed case");
     }
     bump(name, 0);
+    crate::set_current_case("c45a", case);
     let mut labels: Vec<String> = vec![];
     let sig = format!("{name}({})", case.types.iter().map(|t| t.short()).collect::<Vec<_>>().join(","));
     macro_rules! violation {
@@ -388,7 +400,7 @@ fn run_case(case: &Case) -> CaseResult {
             continue;
         }
         let a = coerce_outcome(native, tv);
-        let b = coerce_outcome(&foreign, tv);
+        let b = crate::foreign(|| coerce_outcome(&foreign, tv));
         let raw_dts: Vec<DataType> = tv.iter().map(|t| t.dt()).collect();
         match crate::coercion_agree(&a, &b, &raw_dts) {
             Ok(l) => labels.push(format!("coerce:{what}:{l}")),
@@ -450,7 +462,21 @@ fn run_case(case: &Case) -> CaseResult {
             return CaseResult::pass().labels(labels);
         }
     };
-    let rf_foreign = foreign.return_field_from_args(ReturnFieldArgs { arg_fields: &arg_fields, scalar_arguments: &scalars });
+    // A return field that arrow's C data interface cannot export (a NUL byte inside a time zone, a field name or a
+    // metadata entry taken from a literal argument: arrow-schema ffi.rs builds CStrings with `unwrap()`) makes the
+    // `extern "C"` entry point panic, i.e. ABORT the process. Probe the export natively instead of crossing the FFI.
+    if let Ok(f) = &rf_native {
+        if crate::guard(|| arrow::ffi::FFI_ArrowSchema::try_from(f.as_ref()).is_ok()).is_err() {
+            labels.push(format!("c-schema-export-panics:fn={name}"));
+            return CaseResult::violation(format!(
+                "[sig=c-schema-export-panics-on-nul] {sig}: native return_field_from_args succeeds with {:?}, but exporting that field through the Arrow C data interface panics (NUL byte in a string that becomes part of the type); inside FFI_ScalarUDF's extern \"C\" return_field_from_args this aborts the process instead of returning an error; literal arguments: {:?}",
+                f.data_type(),
+                first_row(case)
+            ))
+            .labels(labels);
+        }
+    }
+    let rf_foreign = crate::foreign(|| foreign.return_field_from_args(ReturnFieldArgs { arg_fields: &arg_fields, scalar_arguments: &scalars }));
     let return_field = match (rf_native, rf_foreign) {
         (Ok(a), Ok(b)) => {
             if field_desc(&a) != field_desc(&b) {
@@ -473,7 +499,7 @@ fn run_case(case: &Case) -> CaseResult {
         labels.push("tz:set".into());
     }
     let placements: Vec<ExpressionPlacement> = case.placements.iter().map(|p| placement_of(*p)).collect();
-    let (pa, pb) = (native.placement(&placements), foreign.placement(&placements));
+    let (pa, pb) = (native.placement(&placements), crate::foreign(|| foreign.placement(&placements)));
     if pa != pb {
         violation!("placement({placements:?}): native {pa:?} foreign {pb:?}");
     }
@@ -496,7 +522,7 @@ fn run_case(case: &Case) -> CaseResult {
             p
         })
         .collect();
-    match (native.preserves_lex_ordering(&props), foreign.preserves_lex_ordering(&props)) {
+    match (native.preserves_lex_ordering(&props), crate::foreign(|| foreign.preserves_lex_ordering(&props))) {
         (Ok(a), Ok(b)) if a == b => {
             if a {
                 labels.push("lex-ordering:true".into());
@@ -513,7 +539,7 @@ fn run_case(case: &Case) -> CaseResult {
             }
         }
     }
-    match (native.inner().with_updated_config(&cfg), foreign.inner().with_updated_config(&cfg)) {
+    match (native.inner().with_updated_config(&cfg), crate::foreign(|| foreign.inner().with_updated_config(&cfg))) {
         (None, None) => {}
         (Some(a), Some(b)) => {
             labels.push("with_updated_config:some".into());
@@ -543,7 +569,7 @@ fn run_case(case: &Case) -> CaseResult {
     // provider side of the FFI sees today)
     let nat_given = native_invoke!(&given);
     let nat_arrays = if any_scalar { native_invoke!(&arrays) } else { nat_given.as_ref().map(|o| Out { is_scalar: o.is_scalar, len: o.len, dt: o.dt.clone(), rendered: o.rendered.clone() }).map_err(|e| e.clone()) };
-    let for_given = invoke(&foreign, &given, &arg_fields, rows, &return_field, &cfg);
+    let for_given = crate::foreign(|| invoke(&foreign, &given, &arg_fields, rows, &return_field, &cfg));
     // None = agrees; Some(why) = differs
     let differs = |n: &Result<Out, String>, f: &Result<Out, String>| -> Option<String> {
         match (n, f) {
